@@ -158,6 +158,7 @@ func readSign(signString string) (Sign, error) {
 		if _, err := fmt.Sscanf(offsetString, "-%02d%02d", &offsetHour, &offsetMinute); err != nil {
 			return Sign{}, fmt.Errorf("%w: %s", ErrInvalidCommitObject, err)
 		}
+		offsetHour, offsetMinute = -offsetHour, -offsetMinute
 	}
 	location := time.FixedZone(" ", 3600*offsetHour+60*offsetMinute)
 	timestamp := time.Unix(unixTime, 0).In(location)
